@@ -231,7 +231,7 @@ def build():
     ))
 
     # ---------------------------------------------------------------- loky cpu_count: >= 1, honours affinity and LOKY_MAX_CPU_COUNT
-    CG = dict(OS=OneOf(None, INT), AFF=INT, CGROUP=INT, LOKYMAX=OneOf(None, INT), PHYS=OneOf("not found", INT))
+    CG = dict(OS=OneOf(None, INT), AFF=INT, CGROUP=INT, LOKYMAX=OneOf(None, INT), PHYS=OneOf("not found", INT), SCHED_IMPL=True, PSUTIL=None)
 
     def ctx_setup(interp, env):
         g = interp.ctx.ghost
@@ -241,8 +241,40 @@ def build():
     p.models["os.cpu_count"] = lambda i, a, k: i.ctx.ghost["OS"]
     p.models["os.environ.get"] = lambda i, a, k: (i.ctx.ghost["LOKYMAX"] if i.ctx.ghost["LOKYMAX"] is not None else (a[1] if len(a) > 1 else None))
     p.assume_note("os.cpu_count() is None or >= 0; os.sched_getaffinity / cgroup files / LOKY_MAX_CPU_COUNT are arbitrary integers (int() of the env string assumed to parse)")
+    # _cpu_count_affinity is under contract itself (below) and used through that contract: AFF is the number of CPUs the affinity mask
+    # allows RIGHT NOW as reported by the platform (os.sched_getaffinity, else psutil), or os_cpu_count where neither exists
+    def sched_getaffinity(interp, args, kwargs):
+        interp.ctx.events.append(("sched_getaffinity",))
+        if interp.ctx.ghost.get("SCHED_IMPL", True) is False:
+            interp.raise_("NotImplementedError")
+        return Opaque("cpuset", None, n=interp.ctx.ghost["AFF"])
+
+    p.models["os.sched_getaffinity"] = sched_getaffinity
+    p.models["len:cpuset"] = lambda i, v: v.attrs["n"]
+    p.models["hasattr:osmod"] = None
+
+    def import_psutil(interp):
+        if interp.ctx.ghost.get("PSUTIL") is None:
+            interp.raise_("ImportError")
+        return Opaque("psutilmod", None)
+
+    p.models["import:psutil"] = import_psutil
+    p.models["psutilmod.Process"] = lambda i, r, a, k: Opaque("psproc", None, hasattr={"cpu_affinity": True})
+    p.models["psproc.cpu_affinity"] = lambda i, r, a, k: Opaque("cpuset", None, n=i.ctx.ghost["PSUTIL"])
+    AFFG = dict(AFF=INT, SCHED_IMPL=OneOf(True, False), PSUTIL=OneOf(None, INT), LOKYMAX=OneOf(None, INT))
+    p.add(Contract(
+        CTX, "_cpu_count_affinity", props=["C15"], ghost=AFFG,
+        globals={"os": lambda interp: Opaque("osmod", None, hasattr={"sched_getaffinity": True}, environ=Opaque("environ", None)),
+                 "sys": lambda interp: Opaque("sys", None, platform="linux")},
+        params=dict(os_cpu_count=INT),
+        returns=INT,
+        ensures={"the_current_affinity_mask_when_the_platform_reports_one": "implies(SCHED_IMPL, result == AFF)",
+                 "else_psutil_else_all_cpus": "implies(not SCHED_IMPL, result == (PSUTIL if PSUTIL is not None else os_cpu_count))"},
+    ))
+    p.models["osmod.sched_getaffinity"] = lambda i, r, a, k: sched_getaffinity(i, a, k)
+    p.models["environ.get"] = lambda i, r, a, k: (i.ctx.ghost["LOKYMAX"] if i.ctx.ghost.get("LOKYMAX") is not None else (a[1] if len(a) > 1 else None))
+    p.log_calls.update({"warnings.warn"})
     ctx_glob = {
-        "_cpu_count_affinity": lambda interp: _Fn(lambda i, a, k: i.ctx.ghost["AFF"]),
         "_cpu_count_cgroup": lambda interp: _Fn(lambda i, a, k: i.ctx.ghost["CGROUP"]),
         "_count_physical_cores": lambda interp: _Fn(lambda i, a, k: (i.ctx.ghost["PHYS"], None)),
         "sys": lambda interp: Opaque("sys", None, platform="linux"),
